@@ -69,6 +69,9 @@ func callsOnField(fn *ssa.Function, f *types.Var, name string) []ssa.CallInstruc
 func runC13(c *Checker) {
 	ruleKA(c)
 	ruleTICK(c)
+	// a keepalive that is never evaluated detects nothing: the send and receive goroutines must
+	// not be able to deadlock each other (C18 LOCKORD/RACE/CLOSE, imported)
+	importLayers(c, "C18")
 }
 
 // ruleKA: the keepalive wiring (shared by C13 and C06).
